@@ -278,7 +278,7 @@ impl EvKind {
             Idle => 40,
             Fault { kind, .. } => 41 + kind.len() as u64,
             Preempt { .. } => 60,
-            Note { .. } => 0,
+            Note { what, .. } => 70 + (what.len() as u64 % 25),
         }
     }
 
